@@ -23,7 +23,7 @@ ENTRY = {
         "integer division / modulo, overflow, NaN / -0.0 / +-inf ordering are engine-defined: not generated (magnitudes are tracked) or skipped",
         "LIMIT / OFFSET below the top level only over an ORDER BY on all output columns",
     ],
-    "min_tags": {"s:filter": 1, "s:join": 1, "s:agg": 1, "s:setop": 1, "s:cte": 1, "s:values": 1, "s:gsets": 1, "s:subquery": 1, "s:sort_limit": 1, "s:distinct": 1, "s:case": 1, "impl:right": 100, "data:big": 8, "layout:mem8c": 100, "layout:memb": 100, "layout:mem1": 100},
+    "min_tags": {"s:filter": 1, "s:join": 1, "s:agg": 1, "s:setop": 1, "s:cte": 1, "s:values": 1, "s:gsets": 1, "s:subquery": 1, "s:sort_limit": 1, "s:distinct": 1, "s:case": 1, "impl:right": 100, "data:big": 8, "layout:mem8c": 100, "shape:global-agg-clustered": 25, "layout:memb": 100, "layout:mem1": 100},
     "manifest": {
         "category": "proof",
         "text": "CAPSTONE C01_pipeline_refines_spec (IQE/Props/C01Pipeline.lean): the engine modelled as the composition of the switch-off operator models (Engine.Filter, Engine.HashJoin, Engine.Acc, Engine.SortLimit, Engine.Values) returns, for EVERY execution configuration (any re-partitioning/re-chunking of every operator input, either build side, any per-group merge tree, fused or unfused top-k) and every catalog, an answer that Spec.acceptable accepts, on the plan fragment scan/VALUES/filter/project/7 join types/COUNT-SUM-MIN-MAX group-by/DISTINCT/UNION ALL with a top-level ORDER BY / LIMIT (by structural induction on the plan; excluded: INTERSECT/EXCEPT/UNION-distinct, windows, grouping sets, CTE, subquery expressions, AVG and DISTINCT aggregates — covered by their own properties' theorems and by the correspondence runs only); plus C01_pipeline_error_or_right. Lean theorems about the oracle itself, for every plan / catalog / table: the executable bag comparison is exactly multiset equality (List.Perm) and an equivalence; for plans without top-level ORDER BY / LIMIT `acceptable` = 'is a permutation of Spec.run's answer', accepts the reference answer, is invariant under permutation of the engine's rows, and never accepts anything when the reference reports an error; LIMIT/OFFSET over an unordered input accepts the reference answer. Tie: generated SQL over all strata through ExecutionContext::sql judged by Spec.acceptable. C01_pipeline_refines_spec (engine model refines Spec for every plan) is pending the per-operator models of C02/C21-C28/C44 and is NOT claimed.",
